@@ -29,6 +29,8 @@ func runC17(w *World, r *Report) {
 	hrRetryCounterStore(w, r, "R1")
 	hrFlowContextGetterIsPure(w, r, "R1")
 	hrDuplicateEdgeByEquality(w, r, "R1")
+	hrDestroyDoesNotRecreate(w, r, "R1")
+	hrHeadersAliasing(w, r, "R1")
 	hrCycleCheckSkippedOnlyWithoutRoot(w, r, "R1")
 	hrNewResponseKeepsIdentity(w, r, "R1")
 	// in flows mode the retry conditions are the filter of the flow that holds the processor (C03.R1, C03.R4)
